@@ -98,15 +98,7 @@ def c18(tier, rep):
     E.traces(rep, E.record_all(std_sources(tier, 300, 3000), modes=("collect", "stop"), listing=True), "corpus+gen+noisy")
 
 
-def c14(tier, rep):
-    E.menu(rep, M.ERRORS, 3 if tier == "quick" else 4, max_errs=4, invariants=["Inv_C14", "Inv_C04"], label="errors")
-    E.menu(rep, M.ERRORS, 3, mode="stop", max_errs=1, invariants=["Inv_C14"], label="errors-stop")
-    E.traces(rep, E.record_all(std_sources(tier, 300, 3000), modes=("collect", "stop")), "corpus+gen+noisy")
-
-
-def c01(tier, rep):
-    E.menu(rep, M.BASE, 3 if tier == "quick" else 4, invariants=["Inv_C01"], label="base")
-    E.traces(rep, E.record_all(std_sources(tier, 300, 3000), modes=("collect", "stop")), "corpus+gen+noisy")
+from props_total import c01, c14  # noqa: E402
 
 
 def c02(tier, rep):
@@ -246,7 +238,7 @@ def _stream_runs(tier, rep, n_gen):
     srcs = [(n, s) for n, s in __import__("pipeline").corpus_sources() if tier == "thorough" or "very_long" not in n]
     srcs += [(f"gen{SEED}-{i}.feature", gen.doc(SEED * 1000003 + i, "en", langs=langs)) for i in range(n_gen)]
     srcs += [(f"noisy{SEED}-{i}.feature", gen.noisy(SEED * 7 + i, gen.doc(SEED * 1000003 + i, "en", langs=langs))) for i in range(n_gen // 2)]
-    srcs = [(u, d) for u, d in srcs if not R.source_is_path(d)]
+    srcs = [(u, d) for u, d in srcs if not E.known_finding_input(d)]
     r.shuffle(srcs)
     runs, k = [], 0
     allopts = [(a, b, c) for a in (True, False) for b in (True, False) for c in (True, False)]
@@ -402,7 +394,131 @@ def c13(tier, rep):
     E.traces(rep, E.record_all(std_sources(tier, 300, 3000)), "corpus+gen+noisy")
 
 
-CHECKS = {"C02": c02, "C09": c09, "C10": c10, "C13": c13, "C11": c11, "C17": c17, "C06": c06, "C07": c07, "C08": c08, "C05": c05, "C12": c12, "C01": c01, "C03": c03, "C04": c04, "C14": c14, "C18": c18}
+def c15(tier, rep):
+    import sessions as S, json, record as R
+    rep.extra["rule"] = ("histories: every sequence of <= N documents from a pool of 12 state-perturbing documents through ONE real Parser/TokenMatcher/Compiler "
+                         "sharing an id generator (two default dialects); schedules: every interleaving, at parse-loop-iteration granularity, of two (thorough: three) "
+                         "concurrent parses of small documents, enforced on real parsers in threads; determinism and compile purity on every accepted document")
+    q = tier == "quick"
+    for default, n in (("en", 2 if q else 3), ("fr", 2)):
+        ss, res = S.tlc_sessions(S.HIST_POOL, 1, n, True, default)
+        rep.add_tlc(f"Sessions[histories,default={default},len<={n}]", res, f"{len(ss)} histories replayed on one re-used Parser/TokenMatcher/Compiler; Inv_Fresh, Inv_Solo")
+        rep.traces += len(ss)
+        for inv in sorted(set(res.invariant_violations)):
+            rep.violation({"kind": "spec-invariant", "invariant": inv}, {"engine": "Sessions", "what": f"{inv} violated", "tlc_tail": res.out[-3000:]})
+        for s in ss:
+            rep.case(("history", default, tuple(h["d"] for h in s["hist"][0])), nontrivial=len(s["hist"][0]) > 1)
+            for b in S.replay_history(S.HIST_POOL, s, default):
+                rep.violation({"kind": "history"}, {"engine": "history", "what": b.get("what"), "default_dialect": default,
+                                                    "history": [S.HIST_POOL[h["d"] - 1] for h in s["hist"][0]], "detail": b})
+        rep.sample({"history": [S.HIST_POOL[h["d"] - 1][:40] for h in ss[len(ss) // 2]["hist"][0]], "default": default})
+    pool = S.SCHED_POOL[:4] if q else S.SCHED_POOL
+    for n_inst, sub in ((2, pool),) + (() if q else ((3, [x for x in pool if x.count("\n") <= 2][:3]),)):
+        ss, res = S.tlc_sessions(sub, n_inst, 1, False)
+        seen, uniq = set(), []
+        for s in ss:
+            key = (json.dumps(s["hist"]), json.dumps([x[1] for x in s["sched"]]))
+            if key not in seen and sum(1 for h in s["hist"] if h) > 1:
+                seen.add(key)
+                uniq.append(s)
+        rep.add_tlc(f"Sessions[schedules,instances={n_inst}]", res, f"{len(uniq)} distinct interleavings replayed with real parsers in gated threads; Inv_Independent")
+        rep.traces += len(uniq)
+        for inv in sorted(set(res.invariant_violations)):
+            rep.violation({"kind": "spec-invariant", "invariant": inv}, {"engine": "Sessions", "what": f"{inv} violated", "tlc_tail": res.out[-3000:]})
+        for s in uniq:
+            rep.case(("schedule", json.dumps(s["hist"]), tuple(x[1] for x in s["sched"])))
+            for b in S.replay_schedule(sub, s):
+                if str(b.get("what", "")).startswith("machinery"):
+                    from common import MachineryError
+                    raise MachineryError(b["what"])
+                rep.violation({"kind": "schedule"}, {"engine": "schedule", "what": b.get("what"), "detail": b})
+        if uniq:
+            rep.sample({"schedule": [x[1] for x in uniq[len(uniq) // 2]["sched"]], "documents": [sub[h[0]["d"] - 1][:30] for h in uniq[len(uniq) // 2]["hist"] if h]})
+    # determinism and purity of parse / compile on real documents
+    for name, s, dialect in std_sources(tier, 150, 1500):
+        if R.source_is_path(s):
+            continue
+        a, b = R.record(name, s, dialect), R.record(name, s, dialect)
+        rep.case(("determinism", s), nontrivial=len(s) > 0)
+        if a != b:
+            rep.violation({"kind": "nondeterministic"}, {"engine": "determinism", "what": "two runs on the same input differ", "source": s})
+        if "compile-mutated-document" in a["exc"]:
+            rep.violation({"kind": "compile-mutates"}, {"engine": "determinism", "what": "Compiler.compile modified the document it was given", "source": s})
+
+
+def c16(tier, rep):
+    import layout as LY, json
+    rep.extra["rule"] = ("spec: every document <= N over a layout menu x EVERY admissible application of each transformation (CRLF, no final line break, trailing "
+                         "blanks, more indentation incl. doc string blocks, blank line, comment line); code: corpus + generated + noisy documents x sampled admissible "
+                         "applications, the relation evaluated by TLC on the implementation's recorded results; file versus string")
+    q = tier == "quick"
+    items, n, bad, res = LY.model_check_and_replay(M.LAYOUT, 3 if q else 4)
+    rep.add_tlc(f"MC_Layout[N={3 if q else 4}]", res, f"{len(items)} documents, {n} admissible applications: Inv_Layout on the spec; each replayed through the real parser/compiler")
+    rep.traces += n
+    for it in items:
+        for c in it["cases"]:
+            rep.case((tuple(it["input"]), json.dumps(c["tr"], sort_keys=True)))
+    ex = next(it for it in items if len(it["cases"]) > 3)
+    rep.sample({"document": "".join(M.LAYOUT[i - 1] for i in ex["input"]), "applications": [c["tr"] for c in ex["cases"][:4]]})
+    for inv in sorted(set(res.invariant_violations)):
+        rep.violation({"kind": "spec-invariant", "invariant": inv}, {"engine": "MC_Layout", "what": f"{inv} violated", "tlc_tail": res.out[-3000:]})
+    for b in bad[:30]:
+        rep.violation({"kind": "layout:" + b["tr"]["t"]}, {"engine": "MC_Layout", "what": "result of the transformed document differs from the adjusted original result", **b})
+    srcs = [x for x in std_sources(tier, 150, 2000) if not (q and "very_long" in x[0])]
+    pairs = LY.build_pairs(srcs, SEED, 2 if q else 4)
+    verdicts, res = LY.validate_pairs(pairs)
+    rep.add_tlc("Trace_Layout", res, f"{len(pairs)} documents, {sum(len(p['cases']) for p in pairs)} transformed versions: harness transformation = ApplyT, admissible, relation holds on recorded results")
+    for k, p in enumerate(pairs):
+        for c, v in zip(p["cases"], verdicts[k + 1]):
+            rep.traces += 1
+            rep.case((p["name"], json.dumps(c["tr"], sort_keys=True)))
+            src = "".join("".join(map(chr, l)) for l in p["lines"])
+            if c["exc"]:
+                rep.violation({"kind": "layout-exception"}, {"engine": "Trace_Layout", "what": "transformed document raised " + c["exc"], "source": src, "tr": c["tr"]})
+            elif v == "harness-transformation":
+                from common import MachineryError
+                raise MachineryError(f"harness applied {c['tr']} differently from Layout!ApplyT on {p['name']}")
+            elif v == "relation":
+                rep.violation({"kind": "layout:" + c["tr"]["t"]}, {"engine": "Trace_Layout", "what": "layout transformation changed the result beyond the allowed adjustment",
+                                                                   "source": src, "dialect": p["dialect"], "tr": c["tr"], "transformed": "".join("".join(map(chr, l)) for l in c["lines"]),
+                                                                   "original_result": p["result"], "transformed_result": c["result"]})
+            elif v == "not-admissible":
+                rep.extra["skipped_not_admissible"] = rep.extra.get("skipped_not_admissible", 0) + 1
+    for b in LY.file_vs_string(srcs[:: 3 if q else 1]):
+        rep.violation({"kind": "file-vs-string"}, {"engine": "files", **b})
+    crlf = [(n + "|crlf", s.replace("\n", "\r\n"), d) for n, s, d in srcs if "\r" not in s][:: 2 if q else 1]
+    for b in LY.file_vs_string(crlf):
+        rep.violation({"kind": "file-vs-string-crlf"}, {"engine": "files", **b})
+
+
+def c19(tier, rep):
+    import markdown as MD
+    rep.extra["rule"] = ("complete: every dialect x listed keyword x header depth 0..7 / bullet in {*, +, -, none, '1.', '#'} x separator in {none, blank, tab, two blanks} x "
+                         "indentation; table rows indented 0..8 and tag lines over small alphabets up to a length bound; distinct test lines")
+    rep.extra["exhaustive"] = True
+    cases, bad, res = MD.keywords()
+    rep.add_tlc("MC_Markdown", res, f"{len(cases)} header / bullet lines: Inv_Header, Inv_Bullet; each replayed on the real match_* methods (positive: fields; negative: no keyword method matches)")
+    rep.traces += len(cases)
+    for c in cases:
+        rep.case((c["d"], tuple(c["line"])), nontrivial=c["ok"])
+    rep.sample({"dialect": cases[len(cases) // 2]["d"], "line": "".join(map(chr, cases[len(cases) // 2]["line"])), "recognised": cases[len(cases) // 2]["ok"]})
+    for inv in sorted(set(res.invariant_violations)):
+        rep.violation({"kind": "spec-invariant", "invariant": inv}, {"engine": "MC_Markdown", "what": f"{inv} violated", "tlc_tail": res.out[-3000:]})
+    for b in bad[:50]:
+        rep.violation({"kind": "markdown-keyword"}, {"engine": "markdown", "what": "Markdown matcher differs from the specification", **b})
+    cases, bad, res = MD.rows_and_tags(4 if tier == "quick" else 6)
+    rep.add_tlc("MC_MarkdownRows", res, f"{len(cases)} table-row and tag lines: Inv_RowWindow, Inv_Tags; replayed on match_TableRow / match_TagLine")
+    rep.traces += len(cases)
+    for c in cases:
+        rep.case((c["kind"], tuple(c["line"])), nontrivial=c["ok"])
+    rep.sample({"line": "".join(map(chr, next(c for c in cases if c["ok"] and c["kind"] == "tags")["line"]))})
+    for inv in sorted(set(res.invariant_violations)):
+        rep.violation({"kind": "spec-invariant", "invariant": inv}, {"engine": "MC_MarkdownRows", "what": f"{inv} violated", "tlc_tail": res.out[-3000:]})
+    for b in bad[:50]:
+        rep.violation({"kind": "markdown-row-tags"}, {"engine": "markdown", "what": "Markdown matcher differs from the specification", **b})
+
+
+CHECKS = {"C02": c02, "C19": c19, "C16": c16, "C15": c15, "C09": c09, "C10": c10, "C13": c13, "C11": c11, "C17": c17, "C06": c06, "C07": c07, "C08": c08, "C05": c05, "C12": c12, "C01": c01, "C03": c03, "C04": c04, "C14": c14, "C18": c18}
 
 
 def replay(prop: str, path: str) -> int:
